@@ -22,9 +22,15 @@ FIRST = {
      "C08/a": "missed (C01 caught it)", "C08/b": "missed", "C09/a": "missed (C10 nfi)", "C09/b": "missed", "C10/a": "missed", "C11/a": "missed",
      "C12/a": "missed", "C12/b": "missed", "C13/a": "nfi", "C13/b": "missed (C12 caught it)", "C15/b": "missed", "C16/b": "missed",
      "C17/a": "missed", "C17/b": "missed", "C18/a": "missed", "C18/b": "missed", "C19/a": "missed", "C19/b": "missed", "C20/a": "missed"},
+ 6: {"C01/b": "missed", "C03/a": "missed", "C03/b": "missed", "C04/a": "missed", "C05/a": "missed", "C05/b": "missed (C10 nfi)",
+     "C06/a": "missed", "C06/b": "missed", "C07/a": "missed", "C07/b": "missed", "C08/b": "missed (C10 nfi)", "C09/b": "missed",
+     "C10/a": "missed", "C10/b": "missed", "C11/a": "missed", "C12/a": "missed", "C12/b": "missed (C15 caught it)", "C13/b": "missed",
+     "C15/b": "missed", "C17/a": "missed", "C18/a": "missed (C10 nfi)", "C19/a": "missed", "C19/b": "missed", "C20/a": "missed", "C20/b": "missed"},
 }
 # seeds that violate none of the properties as stated (see DESIGN section 12); archived, not claimed
-NOT_CLAIMED = {(4, "C11/a"): "a rejected text leaves the receiver partly overwritten: C11 demands rejection (still given); no property speaks about the receiver after an error"}
+_386 = "extensionally equal to the original with a 64-bit int; differs only under GOARCH=386, where the unchanged library already fails its own suite (DESIGN section 1, Environment)"
+NOT_CLAIMED = {(6, "C03/a"): _386, (6, "C06/a"): _386, (6, "C06/b"): _386, (6, "C07/a"): _386, (6, "C07/b"): _386, (6, "C11/a"): _386,
+               (4, "C11/a"): "a rejected text leaves the receiver partly overwritten: C11 demands rejection (still given); no property speaks about the receiver after an error"}
 n = 0
 for pid in sorted(os.listdir(root)):
     for v, letter in (("a", la), ("b", lb)):
